@@ -19,6 +19,14 @@ func newFnExec(w *World, fn *ssa.Function, c *Contract) *FnExec {
 	if c != nil {
 		fx.checked = c.ArithChecked
 		fx.instantiate = c.Flags["instantiate"] != ""
+		// (the flag is a property of the function: it holds for its impl contract too)
+		if w.Contracts != nil {
+			for _, k := range []string{displayName(fn), "impl " + displayName(fn)} {
+				if o := w.Contracts.ByName[k]; o != nil && o.Flags["instantiate"] != "" {
+					fx.instantiate = true
+				}
+			}
+		}
 	}
 	return fx
 }
